@@ -1,9 +1,18 @@
 package main
 
 import (
+	"encoding/json"
 	"fmt"
+	"os"
 	"strings"
 	"time"
+
+	dbm "github.com/cometbft/cometbft-db"
+	abci "github.com/cometbft/cometbft/abci/types"
+	"github.com/cometbft/cometbft/libs/log"
+	tmproto "github.com/cometbft/cometbft/proto/tendermint/types"
+	"github.com/cosmos/cosmos-sdk/baseapp"
+	"github.com/unification-com/mainchain/app"
 
 	sdk "github.com/cosmos/cosmos-sdk/types"
 	authtypes "github.com/cosmos/cosmos-sdk/x/auth/types"
@@ -53,7 +62,7 @@ func (s *scen) blockEnd()                               { s.c.end(nil); s.c.comm
 
 func runScenarios() []monFailure {
 	var out []monFailure
-	for _, f := range []func() []monFailure{scenUpperCaseDecision, scenNestedOverflowPurchase, scenMixedModulesFee, scenDenomChange, scenVestingPurchaser, scenExtraDenomFee, scenGovPurchaser, scenMaxHeight, scenGovFundedExport, scenFeeBoundary, scenForgedForLockedOwner, scenMaxLoweredBelowLimit} {
+	for _, f := range []func() []monFailure{scenUpperCaseDecision, scenNestedOverflowPurchase, scenMixedModulesFee, scenDenomChange, scenVestingPurchaser, scenExtraDenomFee, scenGovPurchaser, scenMaxHeight, scenGovFundedExport, scenFeeBoundary, scenForgedForLockedOwner, scenMaxLoweredBelowLimit, scenExplicitFeePayer, scenForgedWithGranter, scenInconsistentGenesis, scenHugeOrder} {
 		out = append(out, f()...)
 	}
 	return out
@@ -599,6 +608,161 @@ func scenMaxLoweredBelowLimit() []monFailure {
 	if bl2.InStateLimit != bl.InStateLimit {
 		s.fail("C15", 0, fmt.Sprintf("BEACON limit %d became %d through export + import", bl.InStateLimit, bl2.InStateLimit))
 		s.fail("C08", 0, fmt.Sprintf("a BEACON's bought limit %d dropped to %d", bl.InStateLimit, bl2.InStateLimit))
+	}
+	return s.failures
+}
+
+// a registry transaction whose fee is paid by an explicitly named, co-signing fee payer: locked eFUND may be touched only
+// for that fee payer, never for the owner named in the message.
+func scenExplicitFeePayer() []monFailure {
+	s := &scen{c: newChain(fixedCfg()), name: "explicit-fee-payer-on-registry-tx"}
+	defer s.c.close()
+	c := s.c
+	s.blockStart(5 * time.Second)
+	s.tx(4, nundCoins(10), enttypes.NewMsgUndPurchaseOrder(c.addrOf(4), sdk.NewInt64Coin("nund", 1_000_000)))
+	s.tx(0, nundCoins(10), &enttypes.MsgProcessUndPurchaseOrder{PurchaseOrderId: 1, Decision: enttypes.StatusAccepted, Signer: c.addrOf(0).String()})
+	s.tx(1, nundCoins(10), &enttypes.MsgProcessUndPurchaseOrder{PurchaseOrderId: 1, Decision: enttypes.StatusAccepted, Signer: c.addrOf(1).String()})
+	s.blockEnd()
+	for i := 0; i < 2; i++ {
+		s.blockStart(5 * time.Second)
+		s.blockEnd()
+	}
+	s.blockStart(5 * time.Second)
+	defer s.blockEnd()
+	ek := c.app.EnterpriseKeeper
+	if !ek.IsLocked(c.ctx(), c.addrOf(4)) {
+		return s.failures
+	}
+	lockedBefore := ek.GetLockedUndAmountForAccount(c.ctx(), c.addrOf(4)).Amount
+	spentBefore := ek.GetSpentEFUNDAmountForAccount(c.ctx(), c.addrOf(4)).Amount
+	liquidOwner := c.app.BankKeeper.GetBalance(c.ctx(), c.addrOf(4), "nund").Amount
+	liquidPayer := c.app.BankKeeper.GetBalance(c.ctx(), c.addrOf(5), "nund").Amount
+	reg := bcntypes.NewMsgRegisterBeacon("mon4", "name", c.addrOf(4))
+	r, _ := c.deliver(txSpec{msgs: []sdk.Msg{reg}, fee: nundCoins(1000), signers: []acct{c.accts[4], c.accts[5]}, payer: c.addrOf(5)})
+	if debugLogs {
+		fmt.Fprintf(os.Stderr, "scenExplicitFeePayer: code %d %s\n", r.Code, firstLine(r.Log))
+	}
+	if r.Code != 0 {
+		return s.failures // the chain refuses explicit fee payers here: nothing to check
+	}
+	if now := ek.GetLockedUndAmountForAccount(c.ctx(), c.addrOf(4)).Amount; !now.Equal(lockedBefore) {
+		s.fail("C05", 0, fmt.Sprintf("locked eFUND of the BEACON owner went from %s to %s although another account paid the fee", lockedBefore, now))
+	}
+	if now := ek.GetSpentEFUNDAmountForAccount(c.ctx(), c.addrOf(4)).Amount; !now.Equal(spentBefore) {
+		s.fail("C04", 0, fmt.Sprintf("spent eFUND of the BEACON owner went from %s to %s although another account paid the fee", spentBefore, now))
+	}
+	if now := c.app.BankKeeper.GetBalance(c.ctx(), c.addrOf(4), "nund").Amount; !now.Equal(liquidOwner) {
+		s.fail("C05", 0, fmt.Sprintf("the owner's liquid balance changed from %s to %s in a transaction paid by another account", liquidOwner, now))
+	}
+	if now := c.app.BankKeeper.GetBalance(c.ctx(), c.addrOf(5), "nund").Amount; !liquidPayer.Sub(now).Equal(sdk.NewInt(1000)) {
+		s.fail("C06", 0, fmt.Sprintf("the explicit fee payer paid %s instead of the fee 1000", liquidPayer.Sub(now)))
+	}
+	return s.failures
+}
+
+// a transaction that names a fee granter goes through the same signature checks as any other: forged ones are refused.
+func scenForgedWithGranter() []monFailure {
+	s := &scen{c: newChain(fixedCfg()), name: "forged-tx-naming-a-fee-granter"}
+	defer s.c.close()
+	c := s.c
+	s.blockStart(5 * time.Second)
+	defer s.blockEnd()
+	dep := sdk.NewInt64Coin("nund", 100_000)
+	if r := s.tx(2, nundCoins(10), strtypes.NewMsgCreateStream(dep, 10, c.addrOf(3), c.addrOf(2))); r.Code != 0 {
+		return s.failures
+	}
+	cancel := strtypes.NewMsgCancelStream(c.addrOf(3), c.addrOf(2))
+	// signed by account 5's key, naming the victim itself as fee granter (no grant needed when granter = payer)
+	r, _ := c.deliver(txSpec{msgs: []sdk.Msg{cancel}, fee: nundCoins(10), signers: []acct{{addr: c.addrOf(2), priv: c.accts[5].priv}}, granter: c.addrOf(2)})
+	if r.Code == 0 {
+		s.fail("C13", 0, "a stream cancel naming the sender but signed with another account's key executed (fee granter set)")
+	}
+	if _, ok := c.app.StreamKeeper.GetStream(c.ctx(), c.addrOf(3), c.addrOf(2)); !ok {
+		s.fail("C13", 0, "the stream is gone after a forged cancel")
+		s.fail("C12", 0, "a stream was cancelled without its sender's signature")
+	}
+	wl := enttypes.NewMsgWhitelistAddress(c.addrOf(5), enttypes.WhitelistActionAdd, c.addrOf(0))
+	r, _ = c.deliver(txSpec{msgs: []sdk.Msg{wl}, fee: nundCoins(10), signers: []acct{{addr: c.addrOf(0), priv: c.accts[5].priv}}, granter: c.addrOf(0)})
+	if r.Code == 0 || c.app.EnterpriseKeeper.AddressIsWhitelisted(c.ctx(), c.addrOf(5)) {
+		s.fail("C13", 0, "a whitelist message naming an enterprise signer but signed with another account's key executed (fee granter set)")
+		s.fail("C03", 0, "an address was whitelisted without an authorised signer's signature")
+	}
+	return s.failures
+}
+
+// a genesis document whose enterprise section claims locked eFUND that the bank section does not hold must be refused, and
+// in no case may the chain start with more native supply than the bank section declares.
+func scenInconsistentGenesis() []monFailure {
+	s := &scen{c: newChain(fixedCfg()), name: "genesis-claims-locked-efund-the-bank-does-not-hold"}
+	defer s.c.close()
+	c := s.c
+	s.blockStart(5 * time.Second)
+	s.blockEnd()
+	exp, err := c.app.ExportAppStateAndValidators(false, nil, nil)
+	if err != nil {
+		return s.failures
+	}
+	var gs map[string]json.RawMessage
+	if json.Unmarshal(exp.AppState, &gs) != nil {
+		return s.failures
+	}
+	var eg enttypes.GenesisState
+	c.app.AppCodec().MustUnmarshalJSON(gs[enttypes.ModuleName], &eg)
+	eg.TotalLocked = sdk.NewInt64Coin("nund", 1_000_000)
+	eg.LockedUnd = append(eg.LockedUnd, enttypes.LockedUnd{Owner: c.addrOf(4).String(), Amount: sdk.NewInt64Coin("nund", 1_000_000)})
+	gs[enttypes.ModuleName] = c.app.AppCodec().MustMarshalJSON(&eg)
+	var bg banktypes.GenesisState
+	c.app.AppCodec().MustUnmarshalJSON(gs[banktypes.ModuleName], &bg)
+	declared := bg.Supply.AmountOf("nund")
+	state, _ := json.Marshal(gs)
+	a2 := app.NewApp(log.NewNopLogger(), dbm.NewMemDB(), nil, true, c.appOpts, baseapp.SetChainID(chainID))
+	var pan interface{}
+	func() {
+		defer func() { pan = recover() }()
+		a2.InitChain(abci.RequestInitChain{ChainId: chainID, Time: c.now, Validators: []abci.ValidatorUpdate{},
+			ConsensusParams: exp.ConsensusParams, AppStateBytes: state, InitialHeight: exp.Height})
+		a2.Commit()
+	}()
+	defer a2.Close()
+	if debugLogs {
+		fmt.Fprintf(os.Stderr, "scenInconsistentGenesis: panic=%v\n", pan)
+	}
+	if pan != nil {
+		return s.failures // refused, as it must be
+	}
+	s.fail("C15", 0, "InitChain accepted an enterprise genesis claiming 1000000 locked nund that the bank genesis does not hold")
+	ctx := a2.BaseApp.NewContext(true, tmproto.Header{ChainID: chainID, Height: a2.LastBlockHeight()})
+	if got := a2.BankKeeper.GetSupply(ctx, "nund").Amount; !got.Equal(declared) {
+		s.fail("C02", 0, fmt.Sprintf("the chain started with a native supply of %s although the bank genesis declares %s and no purchase order completed", got, declared))
+	}
+	return s.failures
+}
+
+// a purchase order of exactly 2^64 nund (legal: only positivity is required) is accepted and completed: the begin blockers
+// of the minting block and of the following ones must not halt the chain, and the books must carry the amount.
+func scenHugeOrder() []monFailure {
+	s := &scen{c: newChain(fixedCfg()), name: "purchase-order-of-2^64-nund"}
+	defer s.c.close()
+	c := s.c
+	amt, _ := sdk.NewIntFromString("18446744073709551616")
+	s.blockStart(5 * time.Second)
+	if r := s.tx(4, nundCoins(10), enttypes.NewMsgUndPurchaseOrder(c.addrOf(4), sdk.NewCoin("nund", amt))); r.Code != 0 {
+		s.blockEnd()
+		return s.failures
+	}
+	s.tx(0, nundCoins(10), &enttypes.MsgProcessUndPurchaseOrder{PurchaseOrderId: 1, Decision: enttypes.StatusAccepted, Signer: c.addrOf(0).String()})
+	s.tx(1, nundCoins(10), &enttypes.MsgProcessUndPurchaseOrder{PurchaseOrderId: 1, Decision: enttypes.StatusAccepted, Signer: c.addrOf(1).String()})
+	s.blockEnd()
+	for i := 0; i < 4; i++ {
+		if p := s.blockStart(5 * time.Second); p != nil {
+			s.fail("C14", 0, fmt.Sprintf("BeginBlock %d after a 2^64 nund order was accepted panicked: %v", i+1, p))
+			s.fail("C03", 0, fmt.Sprintf("an accepted order of 2^64 nund could not be completed: BeginBlock panicked: %v", p))
+			return s.failures
+		}
+		s.blockEnd()
+	}
+	if got := c.app.EnterpriseKeeper.GetLockedUndAmountForAccount(c.committedCtx(), c.addrOf(4)).Amount; !got.Equal(amt) {
+		s.fail("C03", 0, fmt.Sprintf("after completion of a 2^64 nund order the purchaser's locked eFUND is %s", got))
 	}
 	return s.failures
 }
